@@ -4,11 +4,24 @@
 
   Layer 1 (`psd_of_gaussian_mixture_measure`, `psd_of_gaussian_mixture`): a profile that is a
   non-negative mixture of Gaussians `exp(−g·r²)` has positive semi-definite Gram matrices.
+
+  Layer 2 (`c0_mixture`, `c2_mixture`, `c4_mixture`): with the rate `g(x) = 1/(4x²)`, x ∈ (0, ∞),
+      exp(−r)            = ∫_0^∞ (2/√π)     e^{−x²} · exp(−g(x)·r²) dx
+      (1+r) exp(−r)      = ∫_0^∞ (4/√π) x²  e^{−x²} · exp(−g(x)·r²) dx
+      (1+r+r²/3) exp(−r) = ∫_0^∞ (8/(3√π)) x⁴ e^{−x²} · exp(−g(x)·r²) dx
+  (Proofs/C03MaternIntegrals.lean: Cauchy–Schlömilch integral by Glasser's substitution, then two
+  integrations by parts).  [Substituting s = 1/(4x²) gives the usual inverse-gamma weights
+  `s^(−ν−1) e^{−1/(4s)}`, ν = 1/2, 3/2, 5/2.]
+
+  Layer 3 (`c0_profile_gram_psd`, `c2_profile_gram_psd`, `c4_profile_gram_psd`,
+  `profile_gram_psd`): the Gram matrix of every radial profile of the model is PSD, in every
+  dimension, for all length scales and all points.
 -/
 import Model.Kernels
 import Proofs.ArithReal
 import Proofs.C03Lemmas
 import Proofs.C03Psd
+import Proofs.C03MaternIntegrals
 import Mathlib.MeasureTheory.Integral.Bochner.Basic
 import Mathlib.MeasureTheory.Integral.Bochner.Set
 import Mathlib.MeasureTheory.Measure.Lebesgue.Basic
@@ -95,5 +108,121 @@ theorem psd_of_gaussian_mixture (φ w : ℝ → ℝ)
   · exact (ae_restrict_iff' measurableSet_Ioi).mpr (Filter.Eventually.of_forall hw)
   · exact (ae_restrict_iff' measurableSet_Ioi).mpr
       (Filter.Eventually.of_forall fun s hs => le_of_lt hs)
+
+/-! ### Layer 2: the three Matérn profiles as mixtures of Gaussians -/
+
+/-- the integrand of the mixtures, in terms of `MaternInt.E` with `b = √d / 2` -/
+theorem mix_integrand (c : ℝ) (m : ℕ) {d : ℝ} (hd : 0 ≤ d) (x : ℝ) :
+    c * x ^ m * Real.exp (-x ^ 2) * Real.exp (-(1 / (4 * x ^ 2) * d))
+      = c * (x ^ m * MaternInt.E (Real.sqrt d / 2) x) := by
+  unfold MaternInt.E
+  have hb : (Real.sqrt d / 2) ^ 2 = d / 4 := by rw [div_pow, Real.sq_sqrt hd]; norm_num
+  rw [hb, mul_assoc, mul_assoc, ← Real.exp_add]
+  congr 3
+  ring
+
+/-- A profile of the form `c · ∫_0^∞ x^m e^{−x²} exp(−d/(4x²)) dx` (c ≥ 0, m even) has PSD Gram
+    matrices. -/
+theorem psd_of_E_moment (φ : ℝ → ℝ) {c : ℝ} (hc : 0 ≤ c) {m : ℕ} (hm : Even m)
+    (hφ : ∀ d : ℝ, 0 ≤ d → φ d = c * ∫ x in Set.Ioi 0, x ^ m * MaternInt.E (Real.sqrt d / 2) x)
+    {n d : Nat} (l : Fin d → ℝ) (pts : Fin n → Fin d → ℝ) :
+    (gramMatrix (fun x z : Fin d → ℝ => φ (r2 (List.ofFn l) (List.ofFn x) (List.ofFn z))) pts).PosSemidef := by
+  refine psd_of_gaussian_mixture_measure (volume.restrict (Set.Ioi (0 : ℝ))) φ
+    (fun x => c * x ^ m * Real.exp (-x ^ 2)) (fun x => 1 / (4 * x ^ 2)) ?_ ?_ ?_ ?_ l pts
+  · refine Filter.Eventually.of_forall fun x => ?_
+    exact mul_nonneg (mul_nonneg hc (hm.pow_nonneg x)) (Real.exp_pos _).le
+  · exact Filter.Eventually.of_forall fun x => by positivity
+  · intro d hd
+    simp only [mix_integrand c m hd]
+    exact (MaternInt.integrableOn_pow_mul_E m _).const_mul c
+  · intro d hd
+    simp only [mix_integrand c m hd]
+    rw [integral_const_mul, hφ d hd]
+
+theorem sqrt_pi_ne_zero : Real.sqrt Real.pi ≠ 0 := (Real.sqrt_pos.mpr Real.pi_pos).ne'
+
+/-- `exp(−√d) = (2/√π) ∫_0^∞ e^{−x²} exp(−d/(4x²)) dx` -/
+theorem c0_moment {d : ℝ} (_hd : 0 ≤ d) :
+    phi Kind.c0 d = 2 / Real.sqrt Real.pi * ∫ x in Set.Ioi 0, x ^ 0 * MaternInt.E (Real.sqrt d / 2) x := by
+  have hb : 0 ≤ Real.sqrt d / 2 := by positivity
+  have h := MaternInt.integral_E hb
+  simp only [pow_zero, one_mul, h, phi, Arith.real_exp, Arith.real_sqrt]
+  have := sqrt_pi_ne_zero
+  rw [show 2 * (Real.sqrt d / 2) = Real.sqrt d by ring]
+  field_simp
+
+/-- `(1+√d) exp(−√d) = (4/√π) ∫_0^∞ x² e^{−x²} exp(−d/(4x²)) dx` -/
+theorem c2_moment {d : ℝ} (_hd : 0 ≤ d) :
+    phi Kind.c2 d = 4 / Real.sqrt Real.pi * ∫ x in Set.Ioi 0, x ^ 2 * MaternInt.E (Real.sqrt d / 2) x := by
+  have hb : 0 ≤ Real.sqrt d / 2 := by positivity
+  have h := MaternInt.integral_sq_mul_E hb
+  simp only [h, phi, Arith.real_exp, Arith.real_sqrt]
+  have := sqrt_pi_ne_zero
+  rw [show 2 * (Real.sqrt d / 2) = Real.sqrt d by ring]
+  field_simp
+
+/-- `(1+√d+d/3) exp(−√d) = (8/(3√π)) ∫_0^∞ x⁴ e^{−x²} exp(−d/(4x²)) dx` -/
+theorem c4_moment {d : ℝ} (hd : 0 ≤ d) :
+    phi Kind.c4 d
+      = 8 / (3 * Real.sqrt Real.pi) * ∫ x in Set.Ioi 0, x ^ 4 * MaternInt.E (Real.sqrt d / 2) x := by
+  have hb : 0 ≤ Real.sqrt d / 2 := by positivity
+  have h := MaternInt.integral_pow_four_mul_E hb
+  simp only [h, phi, Arith.real_exp, Arith.real_sqrt, three_real]
+  have := sqrt_pi_ne_zero
+  have hs : Real.sqrt d ^ 2 = d := Real.sq_sqrt hd
+  rw [show 2 * (Real.sqrt d / 2) = Real.sqrt d by ring,
+    show 3 + 6 * (Real.sqrt d / 2) + 4 * (Real.sqrt d / 2) ^ 2 = 3 + 3 * Real.sqrt d + d by rw [div_pow, hs]; ring]
+  field_simp
+
+/-- **C0 Matérn as a Gaussian mixture**: for `d = r² ≥ 0`,
+    `exp(−r) = ∫_0^∞ (2/√π) e^{−x²} · exp(−(1/(4x²))·r²) dx`. -/
+theorem c0_mixture {d : ℝ} (hd : 0 ≤ d) :
+    phi Kind.c0 d = ∫ x in Set.Ioi 0,
+      2 / Real.sqrt Real.pi * x ^ 0 * Real.exp (-x ^ 2) * Real.exp (-(1 / (4 * x ^ 2) * d)) := by
+  simp only [mix_integrand _ 0 hd]
+  rw [integral_const_mul, c0_moment hd]
+
+/-- **C2 Matérn as a Gaussian mixture**:
+    `(1+r) exp(−r) = ∫_0^∞ (4/√π) x² e^{−x²} · exp(−(1/(4x²))·r²) dx`. -/
+theorem c2_mixture {d : ℝ} (hd : 0 ≤ d) :
+    phi Kind.c2 d = ∫ x in Set.Ioi 0,
+      4 / Real.sqrt Real.pi * x ^ 2 * Real.exp (-x ^ 2) * Real.exp (-(1 / (4 * x ^ 2) * d)) := by
+  simp only [mix_integrand _ 2 hd]
+  rw [integral_const_mul, c2_moment hd]
+
+/-- **C4 Matérn as a Gaussian mixture**:
+    `(1+r+r²/3) exp(−r) = ∫_0^∞ (8/(3√π)) x⁴ e^{−x²} · exp(−(1/(4x²))·r²) dx`. -/
+theorem c4_mixture {d : ℝ} (hd : 0 ≤ d) :
+    phi Kind.c4 d = ∫ x in Set.Ioi 0,
+      8 / (3 * Real.sqrt Real.pi) * x ^ 4 * Real.exp (-x ^ 2) * Real.exp (-(1 / (4 * x ^ 2) * d)) := by
+  simp only [mix_integrand _ 4 hd]
+  rw [integral_const_mul, c4_moment hd]
+
+/-! ### Layer 3: Gram matrices of the Matérn profiles are positive semi-definite -/
+
+/-- Gram matrix of the C0 Matérn profile `exp(−r)` is PSD: every dimension, all length scales, all
+    points. -/
+theorem c0_profile_gram_psd {n d : Nat} (l : Fin d → ℝ) (pts : Fin n → Fin d → ℝ) :
+    (gramMatrix (fun x z : Fin d → ℝ => phi Kind.c0 (r2 (List.ofFn l) (List.ofFn x) (List.ofFn z))) pts).PosSemidef :=
+  psd_of_E_moment (phi Kind.c0) (by positivity) (by decide : Even 0) (fun _ hd => c0_moment hd) l pts
+
+/-- Gram matrix of the C2 Matérn profile `(1+r) exp(−r)` is PSD. -/
+theorem c2_profile_gram_psd {n d : Nat} (l : Fin d → ℝ) (pts : Fin n → Fin d → ℝ) :
+    (gramMatrix (fun x z : Fin d → ℝ => phi Kind.c2 (r2 (List.ofFn l) (List.ofFn x) (List.ofFn z))) pts).PosSemidef :=
+  psd_of_E_moment (phi Kind.c2) (by positivity) (by decide : Even 2) (fun _ hd => c2_moment hd) l pts
+
+/-- Gram matrix of the C4 Matérn profile `(1+r+r²/3) exp(−r)` is PSD. -/
+theorem c4_profile_gram_psd {n d : Nat} (l : Fin d → ℝ) (pts : Fin n → Fin d → ℝ) :
+    (gramMatrix (fun x z : Fin d → ℝ => phi Kind.c4 (r2 (List.ofFn l) (List.ofFn x) (List.ofFn z))) pts).PosSemidef :=
+  psd_of_E_moment (phi Kind.c4) (by positivity) (by decide : Even 4) (fun _ hd => c4_moment hd) l pts
+
+/-- all four radial profiles of the model -/
+theorem profile_gram_psd (k : Kind) {n d : Nat} (l : Fin d → ℝ) (pts : Fin n → Fin d → ℝ) :
+    (gramMatrix (fun x z : Fin d → ℝ => phi k (r2 (List.ofFn l) (List.ofFn x) (List.ofFn z))) pts).PosSemidef := by
+  cases k
+  · exact se_profile_gram_psd l pts
+  · exact c0_profile_gram_psd l pts
+  · exact c2_profile_gram_psd l pts
+  · exact c4_profile_gram_psd l pts
 
 end Kernels
